@@ -338,6 +338,80 @@ theorem C20_machine_changed (r : Resolved) (inits : List Fields) (log : Log)
       rw [this]
       cases n.neg <;> simp
 
+
+/-! ### a mark is reset only by a transition that is taken -/
+
+/-- a transition whose conditions hold but whose far frame refuses entry (`let me if …` false) is passed
+over exactly like one whose conditions fail: the next transition of the frame is tried -/
+theorem C20_refused_transition_skipped (w : World) (frames : List Frame) (t : Trans) (ts : List Trans)
+    (hrefused : enterOk w frames t.far = false) :
+    firstTrans w frames (t :: ts) = firstTrans w frames ts := by
+  simp [firstTrans, hrefused]
+
+/-- the transition that is taken has its conditions true and its far frame admits entry -/
+theorem C20_taken_transition_admitted (w : World) (frames : List Frame) (ts : List Trans) (t : Trans)
+    (h : firstTrans w frames ts = some t) :
+    t ∈ ts ∧ evalNeeds w t.needs = true ∧ enterOk w frames t.far = true := by
+  induction ts with
+  | nil => simp [firstTrans] at h
+  | cons x xs ih =>
+    simp only [firstTrans] at h
+    by_cases hc : (evalNeeds w x.needs && enterOk w frames x.far) = true
+    · simp only [hc, if_true, Option.some.injEq] at h
+      subst h
+      simp only [Bool.and_eq_true] at hc
+      exact ⟨by simp, hc.1, hc.2⟩
+    · simp only [hc] at h
+      obtain ⟨a, b, c⟩ := ih h
+      exact ⟨List.mem_cons_of_mem _ a, b, c⟩
+
+/-- **A refused transition keeps the mark.**  In a tick in which the reader takes no transition — every
+transition of its frame has a false condition or a far frame that refuses entry — the reader runs its
+recur acts only: no marker act at all, so every Mark (stamp, used, snapshot) is what it was, and the
+reader stays where it is.  (With `C20_machine_updated`: a guarded condition that was true stays true
+until the transition is really taken or the named frame is entered.) -/
+theorem C20_refused_transition_keeps_mark (r : Resolved) (now : Nat) (s : RState) (near : Frame)
+    (hnear : r.frames[s.active]? = some near)
+    (hnone : firstTrans s.world r.frames near.trans = none) :
+    readerActs r false s = (near.recur.map Act.write, s.active, false) ∧
+    (∀ a ∈ (readerActs r false s).1, ∀ tr m, a ≠ Act.marker tr m) ∧
+    (applyActs now s.world (readerActs r false s).1).marks = s.world.marks := by
+  have h1 : readerActs r false s = (near.recur.map Act.write, s.active, false) := by
+    simp [readerActs, hnear, hnone]
+  refine ⟨h1, ?_, ?_⟩
+  · rw [h1]
+    intro a ha tr m
+    simp only [List.mem_map] at ha
+    obtain ⟨w, _, rfl⟩ := ha
+    intro e; cases e
+  · rw [h1]
+    simp only
+    generalize near.recur = ws
+    generalize s.world = w
+    induction ws generalizing w with
+    | nil => rfl
+    | cons x xs ih =>
+      simp only [List.map_cons, applyActs, List.foldl_cons]
+      have : (applyAct now w (Act.write x)).marks = w.marks := by
+        cases x <;> rfl
+      rw [← this]
+      exact ih _
+
+/-- non-vacuity: `go B if .s0 is updated` with B guarded by `let me if value in .s1` (false): the share
+is updated at tick 1, the transition is refused at ticks 1 and 2 and taken at tick 3 when the guard
+share is set — the update still counts. -/
+example :
+    let nd : NeedSrc := ⟨.update, false, 0, .absent, ""⟩
+    let p : Program := [⟨"A", [], [], [], [], [⟨.named "B", [nd]⟩]⟩,
+                        ⟨"B", [⟨false, 1, "value"⟩], [], [], [], []⟩]
+    let put0 : Write := .put 0 [("value", .int 1)]
+    let put1 : Write := .put 1 [("value", .bool true)]
+    (resolve p).toOption.map (fun r =>
+      (run r [[("value", .int 0)], [("value", .bool false)]]
+        [([], []), ([put0], []), ([], []), ([put1], []), ([], [])]).2.1)
+      = some [(0, true), (0, false), (0, false), (1, true), (1, false)] := by
+  decide
+
 /-! ### where resolve puts the markers -/
 
 /-- **The mark is set on entry to the named frame**: after a successful resolve the enact markers of
@@ -436,8 +510,8 @@ the same share resolve to one Mark key; the `in frame B` clause of the first put
 into `B`, and a second identical request does not add another. -/
 example :
     let nd : NeedSrc := ⟨.update, false, 0, .named "B", "m1"⟩
-    let p : Program := [⟨"A", [], [], [], [⟨.named "B", [nd]⟩]⟩,
-                        ⟨"B", [], [], [], [⟨.named "A", [nd, { nd with clause := .absent }]⟩]⟩]
+    let p : Program := [⟨"A", [], [], [], [], [⟨.named "B", [nd]⟩]⟩,
+                        ⟨"B", [], [], [], [], [⟨.named "A", [nd, { nd with clause := .absent }]⟩]⟩]
     (resolve p).toOption.map (fun r => (r.enacts, r.keys))
       = some ([[], [⟨.update, 0, "m1"⟩]], [(0, "m1")]) := by
   decide
